@@ -30,7 +30,7 @@ class TraceVerdict:
         return self.end and self.nc is None and not self.pv
 
 
-def validate(trace_spec, traces, constants_cfg="", *, name=None, timeout=900, chunk=None, extra_cfg="", parallel=12, dfs=False):
+def validate(trace_spec, traces, constants_cfg="", *, name=None, timeout=900, chunk=None, extra_cfg="", parallel=12, dfs=False, module_text=None, root=None):
     """Returns (list of TraceVerdict aligned with traces, total states).  The batch is split
     into chunks validated by concurrent single-worker TLC processes."""
     from concurrent.futures import ThreadPoolExecutor
@@ -52,7 +52,7 @@ def validate(trace_spec, traces, constants_cfg="", *, name=None, timeout=900, ch
         path = os.path.join(d, "traces-%d.json" % start)
         with open(path, "w") as f:
             json.dump(part, f)
-        res = tlc.run(trace_spec, cfg, name=(name or trace_spec) + "-%d" % start, workers=1, timeout=timeout, env={"TRACE_FILE": path}, heap="3g", dfs=dfs)
+        res = tlc.run(root or trace_spec, cfg, name=(name or trace_spec) + "-%d" % start, workers=1, timeout=timeout, env={"TRACE_FILE": path}, heap="3g", dfs=dfs, module_text=module_text)
         os.unlink(path)
         return start, res
 
